@@ -188,7 +188,7 @@ def decoCmd (fs : List String) : Option String := do
       (r.1, acc.2 ++ [s!"{sh r.2} @{sh r.1.coeff}"])) (⟨c, tln != 0⟩, [])
   pure (" ; ".intercalate outs)
 
-/-- `share cfg=… kind=rev|chain|copy ctrl=<0|1,…> plan=<k0,l2,f,…|N>`: the argument has one gate object per entry of
+/-- `share cfg=… kind=rev|chain|copy ctrl=<0|1,…> [meas=<positions>] plan=<k0,l2,f,…|N>`: the argument has one gate object per entry of
 `ctrl` (1 = it has a controls list), each with lists of its own; answer per gate of the result: `o<i>` the argument's
 gate object `i` itself, `t<i>` a new object holding the targets list of gate `i`, `n` nothing shared -/
 def shareCmd (fs : List String) : Option String := do
@@ -208,7 +208,7 @@ def shareCmd (fs : List String) : Option String := do
     | 'l' :: rest => (String.toNat? (String.ofList rest)).map (fun i => Item.relist i 0)
     | _ => none
   let r ← match kind with
-    | "rev" => some (reverseCircuit cfg w arg)
+    | "rev" => some (reverseCircuit cfg w arg ((fNats? fs "meas").getD []))
     | "chain" => some (toChain cfg w arg plan)
     | "copy" => some (resolveLike w arg plan)
     | _ => none
